@@ -39,6 +39,8 @@ var c13Defects = []Defect{
 	{Name: "noa-past", Param: "10"}, {Name: "noa-past", Param: "3600"}, {Name: "noa-past", Param: "315360000"}, {Name: "noa-past", Param: "1"},
 	{Name: "issued-garbage", Param: "now"}, {Name: "issued-garbage", Param: "dateonly"}, {Name: "issued-garbage", Param: "month13"}, {Name: "issued-garbage", Param: "lowerz"},
 	{Name: "noa-garbage", Param: "now"}, {Name: "noa-garbage", Param: "space"}, {Name: "noa-garbage", Param: "offset"},
+	{Name: "issued-future-offset", Param: "1800/0/offsetneg"}, {Name: "issued-future-offset", Param: "1800/0/offset2"}, {Name: "noa-past-offset", Param: "1800/0/offset2"}, {Name: "noa-past-offset", Param: "1800/0/offsetneg"},
+	{Name: "issued-abs", Param: "9999-12-31T23:59:59Z"}, {Name: "issued-abs", Param: "2400-01-01T00:00:00Z"}, {Name: "noa-abs", Param: "1601-01-01T00:00:00Z"}, {Name: "noa-abs", Param: "0001-01-01T00:00:00Z"},
 	{Name: "issued-absent"}, {Name: "id-absent"},
 	{Name: "bad-base64"}, {Name: "bad-deflate"}, {Name: "truncated-xml"}, {Name: "not-xml"}, {Name: "wrong-root", Param: "AuthnRequest"}, {Name: "unknown-encoding", Param: "urn:example:enc"},
 	{Name: "empty-samlrequest"},
@@ -108,6 +110,14 @@ func genC13Case(t *rapid.T) C13Case {
 			l.IssueInstant = "@now+" + d.Param
 		case "noa-past":
 			l.NotOnOrAfter = "@now-" + d.Param
+		case "issued-future-offset":
+			l.IssueInstant = "@now+" + d.Param
+		case "noa-past-offset":
+			l.NotOnOrAfter = "@now-" + d.Param
+		case "issued-abs":
+			l.IssueInstant = d.Param
+		case "noa-abs":
+			l.NotOnOrAfter = d.Param
 		case "issued-garbage":
 			l.IssueInstant = "@now-60/0/" + d.Param
 		case "noa-garbage":
